@@ -162,8 +162,20 @@ def gen_narrow(rng, tier):
         nm = rng.randint(2, len(present))
         mlabs = rng.sample([-1, -7, 300, 129, 256, 70000, 3, 4], nm)
         f = lump(rng, present, nm, mlabs)
+        mdtype = rng.choice(['uint8', 'int8', 'int16', 'uint16'])
+        style = 'narrow-micro'
+        if rng.random() < 0.35:
+            # the narrow signed type used over its whole range: negative minimum, span beyond the type's maximum
+            mdtype = rng.choice(['int8', 'int8', 'int16'])
+            hi = 127 if mdtype == 'int8' else 32767
+            new = sorted(set([rng.randint(-hi - 1, -hi // 2), rng.randint(hi // 2 + 1, hi)] + [rng.randint(-hi // 2, hi // 2) for _ in range(len(present) - 2)]))
+            if len(new) == len(present):
+                ren = dict(zip(present, new))
+                t = [ren[v] for v in t]
+                f = {ren[a]: b for a, b in f.items()}
+                style = 'narrow-micro-full-range'
         yield {'macro': [[f[v] for v in t]], 'micro': [t], 'pos': rng.random() < 0.5, 'lag': rng.choice([1, 2]),
-               'style': 'narrow-micro', 'alpha': 'index', 'mdtype': rng.choice(['uint8', 'int8', 'int16', 'uint16'])}
+               'style': style, 'alpha': 'index', 'mdtype': mdtype}
 
 
 def gen_snippets(rng, tier):
